@@ -476,6 +476,7 @@ type Clause struct {
 }
 
 type LoopSpec struct {
+	Label string // goto-style loop: label of the loop head
 	Ordinal    int
 	Invariants []Clause
 	Decreases  *Clause
@@ -782,11 +783,23 @@ func parseContractFile(path, pkgPath string) (*SpecFile, error) {
 			if cur == nil {
 				return nil, fail(fmt.Errorf("loop outside func"))
 			}
-			n, err := strconv.Atoi(strings.TrimSpace(rest))
-			if err != nil {
-				return nil, fail(err)
+			var n int
+			label := ""
+			if r := strings.TrimSpace(rest); strings.HasPrefix(r, "@") {
+				// goto-style loop named by the label of its head: `loop @again`
+				label = r[1:]
+				n = 900
+				for cur.Loops[n] != nil {
+					n++
+				}
+			} else {
+				var err error
+				n, err = strconv.Atoi(r)
+				if err != nil {
+					return nil, fail(err)
+				}
 			}
-			curLoop = &LoopSpec{Ordinal: n}
+			curLoop = &LoopSpec{Ordinal: n, Label: label}
 			cur.Loops[n] = curLoop
 			curCall = nil
 		case "invariant":
